@@ -2,4 +2,4 @@ import GopModel.Driver.Loop
 import GopModel.Driver.TplMatch
 import GopModel.Driver.TplHelpers
 open GopModel.Driver
-def main : IO Unit := runDriver (dispatchWith [("tplm", handleTplm), ("tplh", handleTplh), ("tplc", handleTplc)])
+def main : IO Unit := runDriver (dispatchWith [("tplm", handleTplm), ("tplh", handleTplh), ("tplh2", handleTplh2), ("tplc", handleTplc)])
